@@ -1,6 +1,11 @@
 package gram
 
-import "reflect"
+import (
+	"reflect"
+
+	"github.com/alecthomas/participle/v2"
+	"github.com/alecthomas/participle/v2/lexer"
+)
 
 // Hand-written grammars whose productions contain themselves directly (a nested production of the enclosing
 // production's own type shares its parse context; through a union it would run on a branch of its own). The struct
@@ -35,6 +40,7 @@ var staticTypes = map[string][]reflect.Type{
 	"SR1": {reflect.TypeOf(SR1{})},
 	"SR2": {reflect.TypeOf(SR2{})},
 	"SR3": {reflect.TypeOf(SR3{})},
+	"SR4": {reflect.TypeOf(SR4{}), reflect.TypeOf(SR4L{}), reflect.TypeOf(SR4A{})},
 }
 
 func fld(k FKind, prod int) Field { return Field{Kind: k, Prod: prod, Uni: -1} }
@@ -68,7 +74,7 @@ func StaticGrammars() []*Grammar {
 			Group("?", Seq(Lit("("), Lit("-"), Lit(")"))),
 			Lit("-")),
 	}}}
-	return []*Grammar{sr1, sr2, sr3}
+	return []*Grammar{sr1, sr2, sr3, sr4()}
 }
 
 // ChainGrammar is a grammar of n productions, each of which wraps the next one between two literals
@@ -87,4 +93,63 @@ func ChainGrammar(n int) *Grammar {
 		g.Prods = append(g.Prods, p)
 	}
 	return g
+}
+
+// SR4: Value = List | Atom .  List = "(" Value* ")" .  Atom = <ident> .   Three productions that refer to each other
+// in a cycle, with named Go types, so that a parser can be derived for an inner production
+// (participle.ParserForProduction); only the list and the atom carry positions.
+type SR4 struct {
+	F0 *SR4L `@@`
+	F1 *SR4A `| @@`
+}
+
+type SR4L struct {
+	Pos lexer.Position
+	F0  []*SR4 `"(" (@@)* ")"`
+}
+
+type SR4A struct {
+	Pos    lexer.Position
+	EndPos lexer.Position
+	Tokens []lexer.Token
+	F0     string `@Ident`
+}
+
+func sr4() *Grammar {
+	return &Grammar{Static: "SR4", Lookahead: 1, Elide: []string{"WS"}, Unions: []Union{{Members: []int{0}, Ptr: []bool{false}}}, Prods: []*Prod{
+		{PosStyle: 3, Fields: []Field{fld(FSub, 1), fld(FSub, 2)}, Expr: Alt(subAt(1, 0), subAt(2, 1))},
+		{PosStyle: 6, Fields: []Field{fld(FSubs, 0)}, Expr: Seq(Lit("("), Group("*", subAt(0, 0)), Lit(")"))},
+		{PosStyle: 0, Fields: []Field{fld(FStr, -1)}, Expr: capAt(Ref("Ident"), 0)},
+	}}
+}
+
+// DerivedParse parses input with a parser derived from b's parser for the inner production pi
+// (participle.ParserForProduction needs a named Go type: static grammars only). ok=false: no such parser.
+func DerivedParse(b *Built, pi int, input string) (ast any, err error, ok bool) {
+	if b.G.Static != "SR4" {
+		return nil, nil, false
+	}
+	switch pi {
+	case 1:
+		p, perr := participle.ParserForProduction[SR4L](b.P)
+		if perr != nil {
+			return nil, perr, true
+		}
+		v, e := p.ParseString("f", input)
+		if v == nil {
+			return nil, e, true
+		}
+		return v, e, true
+	case 2:
+		p, perr := participle.ParserForProduction[SR4A](b.P)
+		if perr != nil {
+			return nil, perr, true
+		}
+		v, e := p.ParseString("f", input)
+		if v == nil {
+			return nil, e, true
+		}
+		return v, e, true
+	}
+	return nil, nil, false
 }
